@@ -52,11 +52,12 @@ SPEC = {
                  "C02_oversized_length_allocates_nothing", "C02_oversized_count_bounded",
                  "C02_omap_total", "C02_typeutils_consumed_le",
                  "C02_stream_no_panic", "C02_stream_consumed_le", "C02_stream_alloc_linear", "C02_stream_iters_linear", "C02_stream_seek_no_panic", "C02_stream_bytesRead_le",
-                 "C02_json_no_panic", "C02_json_text_no_panic", "C02_numbers_output_le", "C02_all",
+                 "C02_json_no_panic", "C02_json_text_no_panic", "C02_numbers_output_le", "C02_omap_rounds_unconditional", "C02_all",
                  "C02_facts_constants", "C02_facts_type_allowedGenericTypes", "C02_facts_body_ReadBytes", "C02_facts_body_ReadBytesWithSize", "C02_facts_body_ReadObject", "C02_facts_body_ReadObjectWithSize", "C02_facts_body_PeekSize", "C02_facts_body_ReadCollection",
                  "C02_facts_body_readFixedSize", "C02_facts_body_ByteReader_BytesRead", "C02_facts_body_Uint64FromBytes", "C02_facts_body_ByteArray32FromBytes", "C02_facts_body_Deserializer_readSliceLength", "C02_facts_body_Deserializer_ReadVariableByteSlice", "C02_facts_body_Deserializer_ReadString", "C02_facts_body_Deserializer_ReadBytes",
                  "C02_facts_body_Deserializer_ReadPayloadLength", "C02_facts_body_Deserializer_GetObjectType", "C02_facts_body_Deserializer_ReadSequenceOfObjects", "C02_facts_body_Deserializer_RemainingBytes", "C02_facts_body_Deserializer_Done", "C02_facts_body_Deserializer_Skip", "C02_facts_body_Deserializer_ReadTime", "C02_facts_body_Deserializer_ReadPayload",
                  "C02_facts_body_DecodeHex", "C02_facts_body_DecodeUint256", "C02_facts_body_DecodeUint64",
+                 "C02_facts_body_Deserializer_ReadBool", "C02_facts_body_Deserializer_ReadByte", "C02_facts_body_Deserializer_ReadUint256", "C02_facts_body_Deserializer_ReadNum", "C02_facts_body_Deserializer_ReadBytesInPlace", "C02_facts_body_Deserializer_ReadObject", "C02_facts_body_Deserializer_readObject", "C02_facts_body_Deserializer_ReadSliceOfObjects", "C02_facts_body_Deserializer_CheckTypePrefix", "C02_facts_body_Deserializer_ConsumedAll", "C02_facts_body_Deserializer_AbortIf", "C02_facts_body_Deserializer_WithValidation", "C02_facts_body_Deserializer_Do", "C02_facts_body_ArrayRules_CheckBounds", "C02_facts_body_ArrayRules_ElementUniqueValidator", "C02_facts_body_ArrayRules_LexicalOrderValidator", "C02_facts_body_ArrayRules_LexicalOrderWithoutDupsValidator", "C02_facts_body_ArrayRules_AtMostOneOfEachTypeValidator", "C02_facts_body_ArrayRules_ElementValidationFunc", "C02_facts_body_API_JSONDecode", "C02_facts_body_API_MapDecode", "C02_facts_body_API_mapDecode", "C02_facts_body_mapDecodeBytes", "C02_facts_body_API_mapDecodeFloat", "C02_facts_body_API_mapDecodeNum", "C02_facts_body_SerializableOrderedMap_Decode",
                  "C02_facts_json_no_unchecked_assertion", "C02_facts_json_unchecked_assertions", "C02_facts_json_assertions", "C02_facts_json_reflectValueOf",
                  "C02_skeleton_structFieldsCache_Get", "C02_skeleton_structFieldsCache_Set", "C02_skeleton_API_getStructFields",
                  "C02_skeleton_TypeSettingsRegistry_GetByType", "C02_skeleton_TypeSettingsRegistry_GetByValue",
@@ -69,7 +70,8 @@ SPEC = {
         "- each tied by line-by-line differential execution (harness/c02) on mutated valid encodings, random bytes and kind-mutated JSON documents",
         "the string syntaxes of strconv.ParseInt/ParseUint/ParseFloat (decimal, inf/nan, underscores; no hex floats), hexutil.Decode/DecodeBig and utf8.ValidString as written down in JsonDec.lean",
         "harness/tools/extract-sync (shared go/ast extractor): regenerates Hive/Gen/C02_Skel.lean, the synchronisation skeletons of the struct-field cache and the registries of a serix.API, pinned by the C02_skeleton_* decide-obligations",
-        "harness/c02/facts (go/types + go/ast): regenerates Hive/Gen/C02_Facts.lean - constant values and normalised function bodies of serializer/serializer.go, serializer/stream, serializer/typeutils - tied to the models by the C02_facts_* obligations (constants by decide, bodies against the pinned copies in Hive/Spec/DeserFacts.lean)",
+        "harness/c02/facts (go/types + go/ast): regenerates Hive/Gen/C02_Facts.lean - constant values and normalised function bodies of serializer/serializer.go (every Deserializer primitive, the ArrayRules element validators), serializer/stream, serializer/typeutils, serix/numbers.go, the entry points and small helpers of serix/map_decode.go, SerializableOrderedMap.Decode - tied to the models by the C02_facts_* obligations (constants by decide, bodies against the pinned copies in Hive/Spec/DeserFacts.lean); "
+        "and the table of EVERY type assertion and reflect.ValueOf call of map_decode.go (C02_facts_json_no_unchecked_assertion: no assertion of the single-value form on decoded JSON)",
         "the independent Go oracle (recovered panic, consumed > len, runtime.MemStats.TotalAlloc delta > 64 KiB + 64*len; 256*len for serix.Decode / ordered map) evaluated in a child process with an address-space limit",
         "Go toolchain, compiled Lean driver",
     ],
@@ -79,12 +81,13 @@ SPEC = {
         "the chain helpers RemainingBytes, GetObjectType (as a call of its own), Do, AbortIf, WithValidation are primitives of the read programs; the offset Done() reports is modelled also next to an error (behind the prefix of a refused length, behind the elements read so far) and compared; error identities are collapsed to 'err'",
         "stream: Read[uintN|intN|bool|[32|36|38]byte] ReadBytes ReadBytesWithSize ReadObject ReadObjectWithSize ReadObjectFromReader PeekSize ReadCollection, every prefix width; Offset/Skip/GoTo and ByteReader.BytesRead over a seekable reader; readers that return io.EOF together with data and readers that break with another error after K bytes (= the reader over the first K bytes)",
         "JSON: outcome class of mapDecode per target kind (bool, string, small ints, 64-bit ints, floats, big.Int, time, []byte, [N]byte, *[N]byte, slices, arrays, maps, structs with object code / embedded / inlined / optional fields, registered and unregistered interfaces, unsupported kinds); "
-        "decoded values are not modelled (C01b), custom DeserializableJSON and syntactic validators are parameters that are absent",
+        "decoded values are not modelled (C01b); round 6: byte array / byte slice types with an object code held by value (object form), types that decode themselves (DeserializableJSON through a pointer and through a value receiver) with a registered syntactic validator, "
+        "JSONDecode on raw texts (the model is given the tree encoding/json makes of the text: not JSON / a top-level non-object is an error, null the empty object), serix.DecodeHex / DecodeUint256 / DecodeUint64 called directly on arbitrary strings",
         "serix binary Decode over registered types: model Hive/Model/Serix.lean, theorems Props/C02b.lean, tie = second part (harness/c02/serix over harness/serixgen, driver drv_c02b); in the first part serix.Decode of two catalogue types runs under the resource oracle only",
         "alloc = bytes requested with an input-dependent size (make/append/string conversion); fixed-size allocations per loop round are accounted by iters",
     ],
     "manifest": {
-        "text": "For every byte string and every chain of serializer.Deserializer primitives (incl. the callback-driven sequence/object/payload readers), every reader chunking and every stream Read* helper with every prefix width, and every JSON document against every target shape of MapDecode/JSONDecode: the call returns a value or an error and never panics (C02_deser_no_panic, C02_stream_no_panic, C02_json_no_panic; serix binary Decode over every schema: C02_no_panic), reports at most the bytes supplied (C02_deser_offset_le - the offset Done() reports, also next to an error -, C02_stream_consumed_le, C02_stream_bytesRead_le, C02_consumed_le), allocates at most K*len resp. 5*len + 16 KiB bytes with explicit K = 1 + nesting depth (C02_alloc_linear, C02_stream_alloc_linear; a length field above the remaining input allocates nothing: C02_oversized_length_allocates_nothing) and iterates at most K*(len+1) times when sequence elements have positive size (C02_iters_linear, C02_stream_iters_linear). KNOWN DEFECT of the tree (not repaired, reported as KNOWN-FINDING on every run): a sequence whose elements are ZERO bytes wide iterates, appends and allocates as often as its length prefix says (2^20 element decodes for 4 input bytes) - the iteration theorems carry the hypothesis `pos` precisely because of it (witness C02_zero_size_items_witness); zero-width MAP entries are bounded by the duplicate-key rejection and stay under the oracle. Shared state of a serix.API: regenerated synchronisation skeletons pin the lock kind of every accessor of the struct-field cache and the registries (C02_skeleton_*), and 300 fresh APIs per run are used for the first time by 8 goroutines at once in a child process (a runtime abort is the oracle failure `fatal`). Constants and the normalised bodies of 22 decoder functions are re-extracted from the working tree on every run and tied to the models (C02_facts_*). Models re-validated against the working tree on every run: ~27 000 mutated/hostile inputs and kind-mutated JSON documents, outcome class / consumed bytes / iteration counts / values compared line by line with the Lean driver, plus an independent Go oracle measuring panics, consumed bytes and TotalAlloc per call in an address-space-limited child process.",
+        "text": "For every byte string and every chain of serializer.Deserializer primitives (incl. the callback-driven sequence/object/payload readers), every reader chunking and every stream Read* helper with every prefix width, and every JSON document against every target shape of MapDecode/JSONDecode: the call returns a value or an error and never panics (C02_deser_no_panic, C02_stream_no_panic, C02_json_no_panic; serix binary Decode over every schema: C02_no_panic), reports at most the bytes supplied (C02_deser_offset_le - the offset Done() reports, also next to an error -, C02_stream_consumed_le, C02_stream_bytesRead_le, C02_consumed_le), allocates at most K*len resp. 5*len + 16 KiB bytes with explicit K = 1 + nesting depth (C02_alloc_linear, C02_stream_alloc_linear; a length field above the remaining input allocates nothing: C02_oversized_length_allocates_nothing) and iterates at most K*(len+1) times when sequence elements have positive size (C02_iters_linear, C02_stream_iters_linear). KNOWN DEFECT of the tree (not repaired, reported as KNOWN-FINDING on every run): a sequence whose elements are ZERO bytes wide iterates, appends and allocates as often as its length prefix says (2^20 element decodes for 4 input bytes) - the iteration theorems carry the hypothesis `pos` precisely because of it (witness C02_zero_size_items_witness); zero-width MAP entries are bounded by the duplicate-key rejection and stay under the oracle. Shared state of a serix.API: regenerated synchronisation skeletons pin the lock kind of every accessor of the struct-field cache and the registries (C02_skeleton_*), and 300 fresh APIs per run are used for the first time by 8 goroutines at once in a child process (a runtime abort is the oracle failure `fatal`). JSONDecode of ANY text (not JSON, top-level null / array / scalar, nesting beyond the limit of encoding/json) returns a value or an error (C02_json_text_no_panic); the string decoders of numbers.go produce at most half as many bytes as the string has characters (C02_numbers_output_le); the rounds of SerializableOrderedMap.Decode are bounded by the input for every key width, zero-width keys included, because the second empty key is a duplicate (C02_omap_rounds_unconditional). Constants and the normalised bodies of 51 decoder functions are re-extracted from the working tree on every run and tied to the models (C02_facts_*), together with the table of every type assertion of map_decode.go: no assertion on decoded JSON is of the single-value form that panics (C02_facts_json_no_unchecked_assertion - the way the file panicked before 63f234d). Models re-validated against the working tree on every run: ~33 000 mutated/hostile inputs, kind-mutated JSON documents of 10 target types, raw JSON texts and strings, outcome class / consumed bytes / iteration counts / values compared line by line with the Lean driver, plus an independent Go oracle measuring panics, consumed bytes and TotalAlloc per call in an address-space-limited child process.",
         "note": "Trusted: Lean kernel; the three hand-written models (tie = differential execution); Go library string syntaxes as modelled. static/pos hypotheses are about the calling program (unsupported prefix type, zero-size sequence elements), witnessed by C02_unsupported_prefix_witness and C02_zero_size_items_witness.",
         "technique": "Lean 4 proofs by mutual structural induction over read programs / target types with explicit cost invariants + differential correspondence + Go resource oracle",
     },
